@@ -6,8 +6,10 @@ import vf
 LEVEL = "model_checking"
 LEVEL_TEXT = ("AuthExt.tla states the two iff-formulas (http: excluded or a POST carrying the request was answered 2xx; "
               "jwt: excluded or signature/issuer/audience/expiry/permission claim hold) and the token source order, and "
-              "transcribes getToken/authenticateHTTP/authenticateJWT as layer 1; TLC checks layer 1 |= layer 2 on six "
-              "bounded profiles and emits every case; the real auth.Manager executes each case against a local auth "
+              "transcribes getToken/authenticateHTTP/authenticateJWT as layer 1; TLC checks layer 1 |= layer 2 on eight "
+              "bounded profiles (six of single requests, two of request sequences on one manager: history "
+              "independence, every step judged by the per-request formula, serially and from concurrent goroutines) "
+              "and emits every case; the real auth.Manager executes each case against a local auth "
               "server that logs the POST it received and a local JWKS server with tokens minted per class; TLC then "
               "evaluates the statement on every observed record")
 LEVEL_NOTE = ("signature/expiry verification is an atom fixed by the token class (third-party jwt library); open points of "
@@ -42,8 +44,8 @@ def _key(c):
     return json.dumps(c, sort_keys=True)
 
 
-def _small(c):
-    rq = c["rq"]
+def _small(c, step=0):
+    rq = c["steps"][step - 1] if "steps" in c else c["rq"]
 
     def tk(t):
         if t["k"] == "none":
@@ -56,7 +58,10 @@ def _small(c):
             "iss": c["cfg"]["iss"], "aud": c["cfg"]["aud"], "inq": c["cfg"]["inq"],
             "action": rq["action"], "path": rq["path"], "protocol": rq["protocol"], "user": rq["user"],
             "pass": tk(rq["pass"]), "token": tk(rq["token"]),
-            "qtoken": [tk(t) for t in rq["qtok"]], "qjwt": [tk(t) for t in rq["qjwt"]]}
+            "qtoken": [tk(t) for t in rq["qtok"]], "qjwt": [tk(t) for t in rq["qjwt"]],
+            "before": [tk(x["token"]) or tk(x["pass"]) or ",".join(tk(t) for t in x["qtok"]) or "(no token)"
+                       for x in c["steps"][:step - 1]]
+            if "steps" in c else []}
 
 
 def run(ctx):
@@ -81,8 +86,8 @@ def run(ctx):
     of = ctx.path("obs.ndjson")
     vf.gotest_ok(ctx, PKG, "^TestVerif_C02_Replay$", cases=cf, out=of, timeout=1500)
     recs = vf.read_ndjson(of)
-    if len(recs) != len(cases):
-        raise vf.Infra("harness replayed %d of %d cases" % (len(recs), len(cases)))
+    if {rec["id"] for rec in recs} != set(range(len(cases))):
+        raise vf.Infra("harness replayed %d of %d cases" % (len({rec["id"] for rec in recs}), len(cases)))
     for rec in recs:
         rec["l1ok"] = cases[rec["id"]]["l1ok"]
     phases["go_replay"] = round(time.time() - t0, 1)
@@ -101,52 +106,68 @@ def run(ctx):
         tv = vf.tlc(ctx, "TraceAuthExt", "TraceAuthExt.cfg", workers=1, timeout=1800, java_opts=["-Xmx10g"])
         for bad in tv.tagged("BAD"):
             rec = part[bad["l"] - 1]
+            step = bad.get("step", 0)
+            st = rec["steps"][step - 1] if step else rec
             nbad += 1
             cls = rec["c"]["prof"] + "/" + rec["c"]["beh"]
             perclass[cls] = perclass.get(cls, 0) + 1
             if perclass[cls] <= 12:
-                small = _small(rec["c"])
-                obs = {k: rec["obs"][k] for k in ("ok", "user", "ask")}
-                log = [[e["method"], e["url"], e["status"]] for e in rec["log"]]
+                small = _small(rec["c"], step)
+                obs = {k: st["obs"][k] for k in ("ok", "user", "ask")}
+                log = [[e["method"], e["url"], e["status"]] for e in st["log"]]
+                where = ""
+                if step:
+                    where = " (step %d of a sequence on one manager, mode %s, earlier steps: %s)" % (
+                        step, rec["mode"], small["before"])
                 if rec["c"]["cfg"]["method"] == "http":
                     what = ("http method: request %s although %s; auth server log %s" % (
                         "admitted" if obs["ok"] else "rejected",
                         "no POST carrying the request was answered 2xx and the action/path is not excluded"
                         if obs["ok"] else "it is excluded or a POST carrying it was answered 2xx",
-                        json.dumps(rec["log"])[:600]))
+                        json.dumps(st["log"])[:600]))
                 else:
                     what = "jwt method: request %s, the statement demands the opposite (error: %s)" % (
-                        "admitted" if obs["ok"] else "rejected", rec["obs"].get("err"))
-                ctx.violation({"case": small, "obs": obs, "log": log},
-                              "%s; case=%s" % (what, json.dumps(small, sort_keys=True)))
+                        "admitted" if obs["ok"] else "rejected", st["obs"].get("err"))
+                ctx.violation({"case": small, "obs": obs, "log": log, "mode": rec["mode"], "step": step},
+                              "%s%s; case=%s" % (what, where, json.dumps(small, sort_keys=True)))
         for dr in tv.tagged("DRIFT"):
             rec = part[dr["l"] - 1]
-            k = rec["c"]["prof"] + "/" + (rec["c"]["beh"] or rec["c"]["rq"]["token"]["time"])
+            k = rec["c"]["prof"] + "/" + (rec["c"]["beh"] or ("seq" if "steps" in rec["c"] else rec["c"]["rq"]["token"]["time"]))
             drift[k] = drift.get(k, 0) + 1
     if nbad:
         ctx.note("%d records violate the statement (at most 12 reported per class): %s" % (nbad, json.dumps(perclass)))
     phases["tlc_trace_validation"] = round(time.time() - t0, 1)
     byprof = {}
+    decisions = 0
     for rec in recs:
         p = rec["c"]["prof"]
         a = byprof.setdefault(p, [0, 0])
-        a[0] += 1
-        a[1] += 1 if rec["obs"]["ok"] else 0
+        for st in (rec["steps"] if "steps" in rec else [rec]):
+            decisions += 1
+            a[0] += 1
+            a[1] += 1 if st["obs"]["ok"] else 0
     ctx.set("cases_enumerated", len(cases))
-    ctx.set("cases_by_profile_total_admitted", byprof)
+    ctx.set("decisions_by_profile_total_admitted", byprof)
     ctx.set("exhaustive", True)
     ctx.set("traces_validated_against_impl", len(recs))
-    ctx.set("auth_server_requests_logged", sum(len(rec["log"]) for rec in recs))
+    ctx.set("decisions_judged", decisions)
+    ctx.set("sequence_records", {m: sum(1 for rec in recs if rec["mode"] == m) for m in ("serial", "concurrent")})
+    ctx.set("auth_server_requests_logged", sum(len(rec["log"]) for rec in recs if "log" in rec))
     ctx.set("drift_events", sum(drift.values()))
     ctx.set("phase_wall_s", phases)
     if drift:
         ctx.note("observations that differ from layer 1 without violating the statement (DRIFT): %s" % json.dumps(drift))
     for p in ("hstatus", "jclass", "jplace"):
         for rec in recs:
-            if rec["c"]["prof"] == p and rec["obs"]["ok"]:
+            if rec["c"]["prof"] == p and "obs" in rec and rec["obs"]["ok"]:
                 ctx.sample({"case": _small(rec["c"]), "obs": rec["obs"],
                             "log": [[e["method"], e["url"], e["status"]] for e in rec["log"]]})
                 break
+    for rec in recs:
+        if rec["c"]["prof"] == "jseq" and rec["mode"] == "concurrent":
+            ctx.sample({"sequence": [_small(rec["c"], i + 1)["token"] for i in range(len(rec["steps"]))],
+                        "cfg": rec["c"]["cfg"], "mode": rec["mode"], "ok": [st["obs"]["ok"] for st in rec["steps"]]})
+            break
     ctx.assume("signature and expiry verification of golang-jwt / keyfunc is an atom fixed by the token class")
     ctx.assume("the ground-truth table for permission matching (exclude lists, permission claims) is hand-written")
     ctx.assume("nothing listens on 127.0.0.1:1 (connection refused behaviour)")
